@@ -38,8 +38,9 @@ class Prop(BaseProp):
     def build(self, idx, rng):
         nrand = 5000 if self.tier == "quick" else 60000
         if idx < nrand:
-            b = Builder(rng, p_doc=0.5, max_depth=3)
+            b = Builder(rng, p_doc=0.5, max_depth=3, p_clone=0.08, clone_toggle_doc=True)
             mod = b.module()
+            res_clones = b.clones
             return mod, b, "random"
         # exhaustive ordered pairs of kinds, top-level / in a function body, two doc polarities; then ordered triples
         j = idx - nrand
@@ -117,10 +118,7 @@ class Prop(BaseProp):
         nv = len(res.violations)
         matched = oracle.compare_sequence(res, exp, obs, "top", b.unasserted_impl_names)
         res.count("entries_matched", len(matched))
-        for e in exp:
-            n = matched.get(e.uid)
-            if n is None:
-                continue
+        for e, n in matched.pairs:
             res.see("entry_kinds_seen", e.kind)
             if e.kind == "class":
                 m = oracle.compare_class(res, e, n, "class")
